@@ -33,7 +33,7 @@ PROJ = ["SIN", "TAN", "ZEA"]
 def axes(tier, seed):
     return dict(shapes=SHAPES if tier == "quick" else SHAPES_T, projections=PROJ if tier == "quick" else PROJ_T, crpix=["centre", "off-image"], scale_deg=[0.2, 1.0],
                 regions=["circle", "polygon", "multilevel"], depth={"1.0": [6, 9], "0.2": [8, 10]}, negate=[False, True],
-                dims=["plane", "file2d", "file3d", "file4d"],
+                dims=["plane", "file2d", "file3d", "file4d", "file2d float64", "file3d float64"],
                 table_rows=["inside", "outside", "edge", "undef_ra", "undef_dec"], columns=[("ra", "dec"), ("RAJ2000", "DEJ2000")])
 
 
@@ -134,12 +134,14 @@ def ev_image(case, ctx):
     results = {}
     for negate in (False, True):
         exp_blank = inside if negate else ~inside
-        for dims in ("plane", "file2d", "file3d", "file4d"):
+        for dims in ("plane", "file2d", "file3d", "file4d", "file2d_f64", "file3d_f64"):
             ctx.count("mask_call")
             sig = "%s,negate=%s,%s" % (tag, negate, dims)
             try:
                 def with_pre(k):
                     a_ = base + 1000 * k
+                    if dims.endswith("_f64"):       # double-precision image whose values do not fit single precision
+                        a_ = a_.astype(np.float64) + np.pi * 1e-7
                     a_[pre[k]] = np.nan
                     return a_
                 if dims == "plane":
@@ -147,9 +149,9 @@ def ev_image(case, ctx):
                     planes = [MIMAS.mask_plane(with_pre(0), wcs, copy.deepcopy(reg), negate=negate)]
                     ref_planes = [with_pre(0)]
                 else:
-                    if dims == "file2d":
+                    if dims.startswith("file2d"):
                         data = with_pre(0)
-                    elif dims == "file3d":
+                    elif dims.startswith("file3d"):
                         data = np.stack([with_pre(k) for k in range(3)])
                     else:
                         data = np.stack([with_pre(k) for k in range(2)])[None]
@@ -183,7 +185,7 @@ def ev_image(case, ctx):
                     ctx.violation("unmasked pixel values changed (%s)" % sig, "values|" + sig)
                     break
             results[(negate, dims)] = [~np.isfinite(pl) for pl in planes]
-    for dims in ("plane", "file2d", "file3d", "file4d"):
+    for dims in ("plane", "file2d", "file3d", "file4d", "file2d_f64", "file3d_f64"):
         if (False, dims) in results and (True, dims) in results:
             a, b = results[(False, dims)][0], results[(True, dims)][0]
             if a.shape == b.shape and np.any((a == b) & ok & ~pre[0]):
